@@ -193,6 +193,15 @@ def run(ctx):
                                                vrnt_chrgrp=np.array([r_[0] for r_ in mk], dtype="int64"),
                                                vrnt_phypos=np.array([r_[1] for r_ in mk], dtype="int64"))
                 pg.group_vrnt()
+                if rep % 3 == 1:
+                    # the matrix already carries positions and probabilities from ANOTHER map (stretched 3x): the values
+                    # after the second call must be those of the map given to it
+                    gm0 = StandardGeneticMap(vrnt_chrgrp=np.array([r_[0] for r_ in rows], dtype="int64"),
+                                             vrnt_phypos=np.array([r_[1] for r_ in rows], dtype="int64"),
+                                             vrnt_genpos=np.array([3.0 * r_[2] * delta + 0.01 * k for k, r_ in enumerate(rows)], dtype=float))
+                    pg.interp_xoprob(gm0, fnobj)
+                elif rep % 3 == 2:
+                    pg.vrnt_genpos = np.linspace(0.0, 1.0, len(mk)); pg.vrnt_xoprob = np.full(len(mk), 0.25)
                 pg.interp_xoprob(gm, fnobj)
                 xo = np.asarray(pg.vrnt_xoprob, dtype=float); gp = np.asarray(pg.vrnt_genpos, dtype=float)
                 ctx.count(1, ("xoprob", name, tuple(mk)))
